@@ -19,11 +19,12 @@ CHECKS = {
         design="5 C01", technique="Coq proof (induction over the recursion) + model/implementation correspondence"),
     "C09": dict(
         text="Coq theorems (any number of shells, block shapes, cart/sph assignment and rectangular T, by induction "
-             "over lists, generic module of entries): the one-, two- (symmetric and asymmetric) and four-index "
-             "assembly models equal the all-Cartesian assembly with the block-diagonal (+)T_s applied to every basis "
-             "index; the cartesian/spherical/mix code paths agree; lincomb = T applied index-wise; a permuted/signed "
-             "component convention permutes/signs the output (per block; the four-index full-tensor statement is "
-             "partial, see Props/C09.v). The Gallina models are run (extracted OCaml) on LABELLED INTEGER blocks "
+             "over lists, generic module of entries): the one-index and two-index asymmetric assembly models equal the "
+             "all-Cartesian assembly with the block-diagonal (+)T_s applied to every basis index (two-index symmetric: "
+             "same, with the transposition law of the mirrored blocks as a stated hypothesis - partial; four-index: "
+             "per block, first index only - partial); the cartesian/spherical/mix code paths agree; lincomb = T "
+             "applied index-wise; a permuted/signed component convention permutes the columns / permutes and signs "
+             "the rows of the shell's transform and the output rows. The Gallina models are run (extracted OCaml) on LABELLED INTEGER blocks "
              "against subclasses of the four gbasis base classes with a stubbed integer transform for every type "
              "assignment of 1-4 shells (integer equality), and the metamorphic laws are checked numerically (1e-9 "
              "relative) through eleven public functions with/without transform= and with custom-convention shell "
